@@ -309,6 +309,10 @@ def check_numba_threads(ctx):
             tt = (rng.normal(size=(len(tx), ns)) + 1j * rng.normal(size=(len(tx), ns))).astype(np.complex128)
             lt_tx = rng.uniform(0.3, ns * 0.25 / 2 - 0.5, size=(npts, numel))
             lt_rx = rng.uniform(0.3, ns * 0.25 / 2 - 0.5, size=(npts, numel))
+            # about one lookup in ten leaves the recorded window (before the first / after the last sample): the fill value
+            # takes the place of the sample in the scratch array of that image point
+            out_ = rng.random(size=(npts, numel)) < 0.05
+            lt_tx = np.where(out_, rng.choice([-3.0, ns * 0.25 + 2.0], size=(npts, numel)), lt_tx)
             frame = fixtures.make_frame(tt, 0.0, 0.25, tx, rx)
             fl_ = fixtures.make_focal_law(lt_tx, lt_rx)
             for agg, interp in (("median", "nearest"), ("median", ("lanczos", 2)), (("huber", 1.0), ("lanczos", 2))):
